@@ -1034,6 +1034,158 @@ void hetero_case(Ctx& c, unsigned k)
     }
 }
 
+// ------------------------------------------------------------------------------------------------ inconsistent / partial element comparisons
+// std::pair's ordering is defined through the elements' < only (C++20: synth-three-way falls back to < when the element
+// has no <=>), its equality through == only; std::tuple's equality through == only.  Element types whose == disagrees
+// with the equivalence implied by < (RT), that have only one of the two (OnlyEq here, OnlyLess in its own probe cell),
+// or that count the calls of each operator (Cnt) make that observable.
+template <typename E1, typename E2, typename S1, typename S2>
+void all_relations_both_orders(E1 const& e1, E2 const& e2, S1 const& s1, S2 const& s2)
+{
+    hetero_relations(e1, e2, s1, s2);
+}
+// the set of element operators a relation used (and, for equality, how often) must be the one std uses
+template <typename E, typename S>
+void cnt_compare(char const* op, E&& e, S&& s, bool exact_counts)
+{
+    cmpcounts().clear();
+    bool rs = s();
+    CmpCounts cs = cmpcounts();
+    cmpcounts().clear();
+    crumb(op);
+    bool re = e();
+    CmpCounts ce = cmpcounts();
+    cmpcounts().clear();
+    vf::eq_bool("result", re, rs);
+    if (ce.kinds() != cs.kinds()) {
+        std::string sym = "element-operators:" + ce.kinds() + "-for-" + cs.kinds();
+        vf::diverge(sym.c_str(), ce.show(), cs.show());
+    } else if (exact_counts && (ce.eq != cs.eq || ce.ne != cs.ne)) {
+        vf::diverge(ce.eq + ce.ne > cs.eq + cs.ne ? "element-comparisons:more" : "element-comparisons:fewer", ce.show(), cs.show());
+    }
+    cover(op);
+}
+void inconsistent_ops(Ctx& c)
+{
+    // ---- (a) ordered by rank, equal on rank+tag: first element of a pair, second as the tie-breaker
+    {
+        RT const a{c.x[0], c.x[1]}, b{c.y[0], c.y[1]};
+        int const sa = c.x[2], sb = c.y[2];
+        char sit[96];
+        std::snprintf(sit, sizeof sit, "rank-%s,tag-%s,second-%s", cmp3(a.rank, b.rank), a.tag == b.tag ? "same" : "differs", cmp3(sa, sb));
+        g_sit  = sit;
+        g_subj = "pair<RT,int>";
+        all_relations_both_orders(etl::pair<RT, int>(a, sa), etl::pair<RT, int>(b, sb), std::pair<RT, int>(a, sa), std::pair<RT, int>(b, sb));
+        g_subj = "pair<int,RT>";
+        all_relations_both_orders(etl::pair<int, RT>(sa, a), etl::pair<int, RT>(sb, b), std::pair<int, RT>(sa, a), std::pair<int, RT>(sb, b));
+        g_subj = "pair<RT,RT>";
+        RT const a2{c.x[2], c.x[0]}, b2{c.y[2], c.y[0]};
+        all_relations_both_orders(etl::pair<RT, RT>(a, a2), etl::pair<RT, RT>(b, b2), std::pair<RT, RT>(a, a2), std::pair<RT, RT>(b, b2));
+        // tuples with 1-3 elements, the inconsistent element at every position (== / != today; ordering where provided)
+        g_subj = "tuple<RT>";
+        all_relations_both_orders(etl::tuple<RT>(a), etl::tuple<RT>(b), std::tuple<RT>(a), std::tuple<RT>(b));
+        g_subj = "tuple<RT,int>";
+        all_relations_both_orders(etl::tuple<RT, int>(a, sa), etl::tuple<RT, int>(b, sb), std::tuple<RT, int>(a, sa), std::tuple<RT, int>(b, sb));
+        g_subj = "tuple<int,RT>";
+        all_relations_both_orders(etl::tuple<int, RT>(sa, a), etl::tuple<int, RT>(sb, b), std::tuple<int, RT>(sa, a), std::tuple<int, RT>(sb, b));
+        g_subj = "tuple<RT,int,RT>";
+        all_relations_both_orders(etl::tuple<RT, int, RT>(a, sa, a2), etl::tuple<RT, int, RT>(b, sb, b2), std::tuple<RT, int, RT>(a, sa, a2), std::tuple<RT, int, RT>(b, sb, b2));
+        g_subj = "tuple<int,RT,int>";
+        all_relations_both_orders(etl::tuple<int, RT, int>(c.x[2], a, c.x[0]), etl::tuple<int, RT, int>(c.y[2], b, c.y[0]), std::tuple<int, RT, int>(c.x[2], a, c.x[0]),
+            std::tuple<int, RT, int>(c.y[2], b, c.y[0]));
+    }
+    // ---- (b) an element with == only: equality of pairs and tuples (ordering is ill-formed in both libraries)
+    {
+        char sit[64];
+        std::snprintf(sit, sizeof sit, "first-%s,second-%s", c.x[0] == c.y[0] ? "tie" : "differs", c.x[1] == c.y[1] ? "tie" : "differs");
+        g_sit  = sit;
+        g_subj = "pair<OnlyEq,int>";
+        etl::pair<OnlyEq, int> const ea(OnlyEq{c.x[0]}, c.x[1]), eb(OnlyEq{c.y[0]}, c.y[1]);
+        std::pair<OnlyEq, int> const sa(OnlyEq{c.x[0]}, c.x[1]), sb(OnlyEq{c.y[0]}, c.y[1]);
+        EQ_BOOL("operator==", "==", ea == eb, sa == sb);
+        EQ_BOOL("operator!=", "!=", ea != eb, sa != sb);
+        EQ_BOOL("operator==", "==(swapped)", eb == ea, sb == sa);
+        g_subj = "tuple<int,OnlyEq,OnlyEq>";
+        etl::tuple<int, OnlyEq, OnlyEq> const ta(c.x[0], OnlyEq{c.x[1]}, OnlyEq{c.x[2]}), tb(c.y[0], OnlyEq{c.y[1]}, OnlyEq{c.y[2]});
+        std::tuple<int, OnlyEq, OnlyEq> const ua(c.x[0], OnlyEq{c.x[1]}, OnlyEq{c.x[2]}), ub(c.y[0], OnlyEq{c.y[1]}, OnlyEq{c.y[2]});
+        g_sit = first_diff(c.x, c.y, 3);
+        EQ_BOOL("operator==", "==", ta == tb, ua == ub);
+        EQ_BOOL("operator!=", "!=", ta != tb, ua != ub);
+        EQ_BOOL("operator==", "==(swapped)", tb == ta, ub == ua);
+    }
+    // ---- (c) which element operators a relation uses, and how often for equality
+    {
+        char sit[64];
+        std::snprintf(sit, sizeof sit, "first-%s,second-%s", cmp3(c.x[0], c.y[0]), cmp3(c.x[1], c.y[1]));
+        g_sit  = sit;
+        g_subj = "pair<Cnt,Cnt>";
+        etl::pair<Cnt, Cnt> const ea(Cnt{c.x[0]}, Cnt{c.x[1]}), eb(Cnt{c.y[0]}, Cnt{c.y[1]});
+        std::pair<Cnt, Cnt> const sa(Cnt{c.x[0]}, Cnt{c.x[1]}), sb(Cnt{c.y[0]}, Cnt{c.y[1]});
+        cnt_compare("operator==", [&] { return ea == eb; }, [&] { return sa == sb; }, true);
+        cnt_compare("operator!=", [&] { return ea != eb; }, [&] { return sa != sb; }, true);
+        cnt_compare("operator<", [&] { return ea < eb; }, [&] { return sa < sb; }, false);
+        cnt_compare("operator<=", [&] { return ea <= eb; }, [&] { return sa <= sb; }, false);
+        cnt_compare("operator>", [&] { return ea > eb; }, [&] { return sa > sb; }, false);
+        cnt_compare("operator>=", [&] { return ea >= eb; }, [&] { return sa >= sb; }, false);
+        cnt_compare("operator<", [&] { return eb < ea; }, [&] { return sb < sa; }, false);
+        g_sit = first_diff(c.x, c.y, 1);
+        g_subj = "tuple<Cnt>";
+        {
+            etl::tuple<Cnt> const ta(Cnt{c.x[0]}), tb(Cnt{c.y[0]});
+            std::tuple<Cnt> const ua(Cnt{c.x[0]}), ub(Cnt{c.y[0]});
+            cnt_compare("operator==", [&] { return ta == tb; }, [&] { return ua == ub; }, true);
+            cnt_compare("operator!=", [&] { return ta != tb; }, [&] { return ua != ub; }, true);
+        }
+        g_sit  = first_diff(c.x, c.y, 2);
+        g_subj = "tuple<Cnt,Cnt>";
+        {
+            etl::tuple<Cnt, Cnt> const ta(Cnt{c.x[0]}, Cnt{c.x[1]}), tb(Cnt{c.y[0]}, Cnt{c.y[1]});
+            std::tuple<Cnt, Cnt> const ua(Cnt{c.x[0]}, Cnt{c.x[1]}), ub(Cnt{c.y[0]}, Cnt{c.y[1]});
+            cnt_compare("operator==", [&] { return ta == tb; }, [&] { return ua == ub; }, true);
+            cnt_compare("operator!=", [&] { return ta != tb; }, [&] { return ua != ub; }, true);
+        }
+        g_sit  = first_diff(c.x, c.y, 3);
+        g_subj = "tuple<Cnt,int,Cnt>";
+        {
+            etl::tuple<Cnt, int, Cnt> const ta(Cnt{c.x[0]}, c.x[1], Cnt{c.x[2]}), tb(Cnt{c.y[0]}, c.y[1], Cnt{c.y[2]});
+            std::tuple<Cnt, int, Cnt> const ua(Cnt{c.x[0]}, c.x[1], Cnt{c.x[2]}), ub(Cnt{c.y[0]}, c.y[1], Cnt{c.y[2]});
+            cnt_compare("operator==", [&] { return ta == tb; }, [&] { return ua == ub; }, true);
+            cnt_compare("operator!=", [&] { return tb != ta; }, [&] { return ub != ua; }, true);
+        }
+    }
+    // ---- (d) partially ordered elements: == / != with NaN always; <=> and the ordering through it only where etl provides <=>
+    {
+        double const nan = std::numeric_limits<double>::quiet_NaN();
+        double const d[4] = {nan, 0.0, 1.0, -0.0};
+        double const a = d[c.x[0] + (c.x[1] == 2 ? 1 : 0)], b = d[c.y[0] + (c.y[1] == 2 ? 1 : 0)];
+        char sit[64];
+        std::snprintf(sit, sizeof sit, "lhs-%s,rhs-%s,second-%s", a != a ? "nan" : "number", b != b ? "nan" : "number", cmp3(c.x[2], c.y[2]));
+        g_sit  = sit;
+        g_subj = "pair<double,int>";
+        etl::pair<double, int> const ea(a, c.x[2]), eb(b, c.y[2]);
+        std::pair<double, int> const sa(a, c.x[2]), sb(b, c.y[2]);
+        EQ_BOOL("operator==", "==", ea == eb, sa == sb);
+        EQ_BOOL("operator!=", "!=", ea != eb, sa != sb);
+        EQ_BOOL("operator==", "==(self)", ea == ea, sa == sa);
+        auto three_way = [&]<typename P = etl::pair<double, int>>(P const& p, P const& q) {
+            if constexpr (requires { p <=> q; }) {
+                EQ_BOOL("operator<=>", "<=>:less", (p <=> q) < 0, (sa <=> sb) < 0);
+                EQ_BOOL("operator<=>", "<=>:equivalent", (p <=> q) == 0, (sa <=> sb) == 0);
+                EQ_BOOL("operator<=>", "<=>:unordered", (p <=> q) == std::partial_ordering::unordered, (sa <=> sb) == std::partial_ordering::unordered);
+                EQ_BOOL("operator<", "<", p < q, sa < sb);
+                EQ_BOOL("operator>=", ">=", p >= q, sa >= sb);
+            }
+        };
+        three_way(ea, eb);
+        g_subj = "tuple<int,double>";
+        etl::tuple<int, double> const ta(c.x[2], a), tb(c.y[2], b);
+        std::tuple<int, double> const ua(c.x[2], a), ub(c.y[2], b);
+        EQ_BOOL("operator==", "==", ta == tb, ua == ub);
+        EQ_BOOL("operator!=", "!=", ta != tb, ua != ub);
+        EQ_BOOL("operator==", "==(self)", ta == ta, ua == ua);
+    }
+}
+
 // ------------------------------------------------------------------------------------------------ random part
 int boundary_int(vf::Rng& r)
 {
@@ -1178,6 +1330,7 @@ void run_case(vf::Case& c)
         tuple_move_only(x);
         tuple_spy(x);
         swap_adl(x);
+        inconsistent_ops(x);
     } else {
         x.h = vf::mix(0xC20F, c.rng.next());
         std::snprintf(x.desc, sizeof x.desc, "random case %llu", (unsigned long long)c.index);
